@@ -97,14 +97,27 @@ struct ScriptedBroker {
     stage: usize,
     inbox: VecDeque<u8>,
     eof: bool,
+    /// an eager server has sent its first frame before reading the protocol header: the header write triggers no reaction
+    skip_reaction: bool,
     seen: Arc<Mutex<Seen>>,
 }
 
 impl ScriptedBroker {
-    fn new(script: [React; 3], seen: Arc<Mutex<Seen>>) -> ScriptedBroker {
+    fn new(script: [React; 3], seen: Arc<Mutex<Seen>>, eager: bool) -> ScriptedBroker {
         let (registration, readiness) = Registration::new2();
-        readiness.set_readiness(Ready::writable()).unwrap();
-        ScriptedBroker { registration, readiness, script, stage: 0, inbox: VecDeque::new(), eof: false, seen }
+        let mut b = ScriptedBroker { registration, readiness, script, stage: 0, inbox: VecDeque::new(), eof: false, skip_reaction: false, seen };
+        if eager {
+            // the server's first reaction is on the wire before the client has written anything
+            match frame_for(script[0], 0) {
+                Some(bytes) => b.inbox.extend(bytes),
+                None => b.eof = true,
+            }
+            b.stage = 1;
+            b.skip_reaction = true;
+        }
+        let r = b.now();
+        b.readiness.set_readiness(r).unwrap();
+        b
     }
     fn now(&self) -> Ready {
         if self.inbox.is_empty() && !self.eof { Ready::writable() } else { Ready::readable() | Ready::writable() }
@@ -128,7 +141,9 @@ impl Write for ScriptedBroker {
     fn write(&mut self, buf: &[u8]) -> io::Result<usize> {
         self.seen.lock().unwrap().writes.push(buf.to_vec());
         // the broker reacts once per client step: to the header, to StartOk, to TuneOk+Open; anything the client writes later (CloseOk) gets no answer
-        if self.stage < 3 && !self.eof {
+        if self.skip_reaction {
+            self.skip_reaction = false;
+        } else if self.stage < 3 && !self.eof {
             match frame_for(self.script[self.stage], self.stage) {
                 Some(bytes) => self.inbox.extend(bytes),
                 None => self.eof = true,
@@ -249,11 +264,11 @@ fn client_methods(seen: &Seen) -> Vec<AmqpConnection> {
     out
 }
 
-fn run_script(script: [React; 3], client_frame_max: u32) {
-    let what = format!("script {:?} client frame_max {}", script, client_frame_max);
+fn run_script(script: [React; 3], client_frame_max: u32, eager: bool) {
+    let what = format!("script {:?} client frame_max {} eager server {}", script, client_frame_max, eager);
     let seen = Arc::new(Mutex::new(Seen::default()));
     let options = ConnectionOptions::<Auth>::default().heartbeat(0).frame_max(client_frame_max).virtual_host("vh");
-    let result = Connection::insecure_open_stream(ScriptedBroker::new(script, seen.clone()), options, ConnectionTuning::default());
+    let result = Connection::insecure_open_stream(ScriptedBroker::new(script, seen.clone(), eager), options, ConnectionTuning::default());
     let want = oracle(script, client_frame_max);
     let got = classify(&result);
     assert_eq!(got, want, "{}", what);
@@ -312,7 +327,18 @@ fn verif_sweep_c16_every_reaction_triple_against_oracle() {
         for a in &reactions {
             for b in &reactions {
                 for c in &reactions {
-                    run_script([*a, *b, *c], client_frame_max);
+                    // an eager server (first frame sent before the protocol header was read) for every eighth script
+                    let eager = count % 8 == 3;
+                    let script = [*a, *b, *c];
+                    // a handshake that never returns is a failure, not a hang of the test
+                    let (tx, rx) = std::sync::mpsc::channel();
+                    std::thread::spawn(move || {
+                        run_script(script, client_frame_max, eager);
+                        let _ = tx.send(());
+                    });
+                    if rx.recv_timeout(std::time::Duration::from_secs(20)).is_err() {
+                        panic!("script {:?} client frame_max {} eager server {}: the attempt did not return (or a check failed, see above)", script, client_frame_max, eager);
+                    }
                     count += 1;
                 }
             }
